@@ -24,6 +24,7 @@ import vlib
 #   sorted   : keys collected, sorted, then rendered                -> C12_sorted_site_deterministic
 #   acc-sort : pushes accumulated in iteration order, sorted later   -> C12_nested_layout_deterministic
 #   keyed    : per-key writes (files / map inserts), read by key only -> C12_keyed_writes_deterministic
+#   memo     : memoised resolver called per key; needs 'answer independent of memo state' -> C12_memo_site_deterministic
 S = "src/"
 SITES = {
     (S + "backend/project.rs", "ProjectGenerator::generate_cargo_toml", "self.rust_crate_deps", "method:iter", 1):
@@ -59,7 +60,9 @@ SITES = {
     (S + "backend/ir/mod.rs", "FunctionRegistry::merge", "other.signatures", "for", 1):
         ("keyed", "write_all / C12_keyed_writes_deterministic", "map merged into map, read by key"),
     (S + "backend/ir/emit/program.rs", "IrEmitter::emit_program", "static_str_const_exprs", "method:keys", 1):
-        ("keyed", "write_all / C12_keyed_writes_deterministic", "memoised per-key resolution (value depends on the key only)"),
+        ("memo", "memo_all / C12_memo_site_deterministic (refuted without its hypothesis: C12_memo_site_refuted)",
+         "memoised resolution; order-free IF the resolver's answer does not depend on the memo state — re-validated per run by the "
+         "differential probe on long const chains (st_consts, st_consts2: emit-many + 8 processes)"),
     (S + "backend/ir/emit/program.rs", "IrEmitter::emit_program", "cache", "extend-into-hash", 1):
         ("keyed", "write_all / C12_keyed_writes_deterministic", "map extended by map"),
     (S + "backend/ir/codegen.rs", "IrCodegen::collect_rust_crates", "crates", "for", 1):
